@@ -419,6 +419,12 @@ Inst(kd, ev) ==
                              sp \in {q \in AlLoc(ev, c, 2) \X AlLoc(ev, c, 3) \X AlLoc(ev, c, 1) :
                                        q[1] # El(c, 2) \/ q[2] # El(c, 3) \/ q[3] # El(c, 1)}} :
                           c \in Pick({q \in Pl("L") : ev[q].ok /\ ev[q].val.len >= 3})}
+    [] kd = "LoopDefine" ->
+        \* for n := 0; n < 2; n++ { x := S; x[n] = v; D[n] = x[:] }   (S an array; for a struct S: x.A[n] = v; D[n] = x.A[:])
+        \* every execution of x := S declares a NEW variable: the slices kept from the two iterations
+        \* are views of two different arrays
+        UNION {{[Op(kd) EXCEPT !.d = pr[1], !.s = pr[2], !.v = NewVal, !.x = T] :
+                  pr \in {q \in Pl("LL") \X Pl(T) : ev[q[1]].ok /\ ev[q[1]].val.len >= 2 /\ ev[q[2]].ok}} : T \in {"A", "S"}}
     [] kd = "MapTuple" ->   \* A["x"], A["y"] = B["y"], B["x"]  (B may be the same map through another path)
         UNION {{[Op(kd) EXCEPT !.d = pr[1], !.s = pr[2], !.x = T] :
                   pr \in {q \in Pl(T) \X Pl(T) : ev[q[1]].ok /\ ev[q[2]].ok /\ ev[q[1]].val.id # 0}} : T \in {"M", "MS"}}
@@ -542,6 +548,14 @@ Eff(op, ev) ==
           [] op.x = "PI" -> Res(WriteLoc(M, x.obj, x.path, v), mty, <<v>>, NoChk, op))
     [] kd = "ReturnComposite" ->  \* D = func() T { r := S; S.<first int> = v; return r }()
         Res(Put(WriteLoc(M, S.obj, S.path \o FirstInt(op.x), v), D, S.val), mty, <<>>, ChkMove(op.x, op.d, op.s, S.val), op)
+    [] kd = "LoopDefine" ->
+        LET x  == S.val
+            pa == IF op.x = "A" THEN <<>> ELSE <<2>>                       \* where the array is inside x
+            o1 == NewId(M)
+            o2 == o1 + 1
+            M1 == Append(Append(M, SetPath(x, Append(pa, 1), v)), SetPath(x, Append(pa, 2), v))
+        IN Res(WriteElems(M1, D.val, 0, <<SL(o1, pa, 0, 2, 2), SL(o2, pa, 0, 2, 2)>>),
+               mty \o (IF op.x = "A" THEN <<"arrI", "arrI">> ELSE <<"S", "S">>), <<>>, NoChk, op)
     [] kd = "RangeArray" ->   \* body writes the second element at the first iteration
         LET x == S.val
             seen1 == IF op.x = "A" THEN x[1] ELSE x[1][1]
@@ -612,12 +626,12 @@ Capture(ev) == Act("Capture", ev)                CallFunc(ev) == Act("CallFunc",
 Box(ev) == Act("Box", ev)                        Unbox(ev) == Act("Unbox", ev)
 BindMV(ev) == Act("BindMV", ev)
 AppendN(ev) == Act("AppendN", ev)         Tuple(ev) == Act("Tuple", ev)
-MapTuple(ev) == Act("MapTuple", ev)
+MapTuple(ev) == Act("MapTuple", ev)        LoopDefine(ev) == Act("LoopDefine", ev)
 
 AllKinds == {"AssignVar", "Deref", "SetLit", "SetField", "SetElem", "SetThroughPtr", "SetMapEntry", "MapDelete", "MapLookup",
              "Append", "AppendLL", "AppendSlice", "DeleteIdx", "Copy", "Slice2", "Slice3", "Make", "AddrOf", "Swap",
              "IdxAssign", "RebindAssign", "PassByValue", "ReturnComposite", "RangeArray", "RangeSlice", "Capture",
-             "CallFunc", "Box", "Unbox", "BindMV", "AppendN", "Tuple", "MapTuple"}
+             "CallFunc", "Box", "Unbox", "BindMV", "AppendN", "Tuple", "MapTuple", "LoopDefine"}
 
 Next ==
     /\ Len(hist) < MaxSteps
@@ -627,7 +641,7 @@ Next ==
         \/ CopyOp(ev) \/ Slice2(ev) \/ Slice3(ev) \/ Make(ev) \/ AddrOf(ev) \/ Swap(ev) \/ IdxAssign(ev)
         \/ RebindAssign(ev) \/ PassByValue(ev) \/ ReturnComposite(ev) \/ RangeArray(ev) \/ RangeSlice(ev)
         \/ Capture(ev) \/ CallFunc(ev) \/ Box(ev) \/ Unbox(ev) \/ BindMV(ev) \/ SetLit(ev)
-        \/ AppendN(ev) \/ Tuple(ev) \/ MapTuple(ev)
+        \/ AppendN(ev) \/ Tuple(ev) \/ MapTuple(ev) \/ LoopDefine(ev)
 
 \* simulation: the kind is drawn first, then the instance (TLC's uniform choice among
 \* successor STATES would be dominated by the kinds with many instances)
